@@ -118,21 +118,32 @@ func init() {
 }
 
 type clockState struct {
-	sec, nsec *Term
+	mono *Term
+	wall *Term // seconds|nanoseconds as one 63-bit number
 }
 
+// timeNow: a reading of an arbitrary clock *with a monotonic component*, as the real time.Now returns:
+//   wall = hasMonotonic | seconds-since-1885 (33 bits, arbitrary between 2001 and 2128) | nanoseconds (< 1e9)
+//   ext  = monotonic nanoseconds, arbitrary but non-decreasing from one call to the next.
+// Differences and comparisons of two such readings use only ext (as in package time), which keeps
+// duration arithmetic linear. The wall-clock part is not tied to ext, but neither clock runs backwards.
 func (e *Exec) timeNow() Value {
-	e.stubUsed("time.Now: fresh symbolic instant, non-decreasing across calls, 2001..2128, UTC, no monotonic reading")
+	e.stubUsed("time.Now: arbitrary wall reading (2001..2128) plus a monotonic reading; neither decreases between calls")
 	tt := e.tt
-	sec := e.freshVar("now_sec", 64)
-	nsec := e.freshVar("now_nsec", 64)
-	const lo = 62135596800 + 1000000000
-	e.addPC(tt.Cmp(OpSLe, tt.BV(64, lo), sec))
-	e.addPC(tt.Cmp(OpSLe, sec, tt.BV(64, lo+4000000000)))
-	e.addPC(tt.Cmp(OpULt, nsec, tt.BV(64, 1000000000)))
+	sec := e.freshVar("now_sec33", 33)
+	nsec := e.freshVar("now_nsec30", 30)
+	mono := e.freshVar("now_mono", 64)
+	e.addPC(tt.Cmp(OpULe, tt.BV(33, 3660000000), sec))
+	e.addPC(tt.Cmp(OpULe, sec, tt.BV(33, 7670000000)))
+	e.addPC(tt.Cmp(OpULt, nsec, tt.BV(30, 1000000000)))
+	e.addPC(tt.Cmp(OpSLe, tt.BV(64, 1), mono))
+	e.addPC(tt.Cmp(OpSLe, mono, tt.BV(64, 1<<60)))
+	w63 := tt.Concat(sec, nsec)
 	if st, ok := e.hostState["clock"].(*clockState); ok {
-		e.addPC(tt.Or(tt.Cmp(OpSLt, st.sec, sec), tt.And(tt.Eq(st.sec, sec), tt.Cmp(OpULe, st.nsec, nsec))))
+		e.addPC(tt.Cmp(OpSLe, st.mono, mono))
+		e.addPC(tt.Cmp(OpULe, st.wall, w63)) // the wall clock is not stepped backwards either
 	}
-	e.hostState["clock"] = &clockState{sec, nsec}
-	return &Agg{elems: []Value{nsec, sec, Ptr{}}}
+	e.hostState["clock"] = &clockState{mono, w63}
+	wall := tt.Concat(tt.BV(1, 1), w63)
+	return &Agg{elems: []Value{wall, mono, Ptr{}}}
 }
